@@ -8,7 +8,8 @@ import e2e_streams as ES
 
 MODULE = "Props.C09"
 THEOREMS = ["C09_singular_releases_values", "C09_singular_draw_exact", "C09_rescale_identity", "C11_null_range", "C18_childIndex_bit", "removeDim_testBit",
-            "C09_equal_rows_same_leaf", "C18_forest_tree"]
+            "C09_equal_rows_same_leaf", "C18_forest_tree", "fitScaler_scale_pos", "C09_scale_inverse", "C09_int_roundtrip", "C09_real_roundtrip",
+            "C09_bool_roundtrip", "C09_string_roundtrip", "valueMapOf_strict", "mem_valueMapOf", "valueMapOf_injective"]
 PARTIAL = ["T09.a: 'complete' is a Lean theorem (C09_equal_rows_same_leaf: a leaf of a forest tree holds all rows of each value combination it holds); "
            "'all leaves singular when every combination is held by range_low_threshold entities and the noise is off' is not (it needs the split "
            "test's depth / row-limit disjunct and the stub flag to be discharged from the hypothesis); "
@@ -105,6 +106,8 @@ def stream_wellpop(ctx, ntables):
 def run(ctx, built):
     stream_wellpop(ctx, ctx.scale(60, 800))
     ES.stream_micro(ctx, built, ctx.scale(10, 100))
+    # convertor fitting and normalisation inside the model: the typed table itself goes to the model (SdxModel/Convert.lean)
+    ES.stream_sample1(ctx, built, ctx.scale(16, 200), name="S-sampleRaw", raw=True)
 
 
 def search(ctx, seeds):
